@@ -24,8 +24,11 @@ type APU struct {
 	Reg   [0x16]uint8 // FF10..FF25 as stored (readable bits only matter)
 	Known [0x16]bool  // the register has been written (or cleared by power-off) since the machine started
 	Wave  [16]uint8
-	Ch    [4]APUChan
-	Step  int // index of the next frame-sequencer step (0..7); even steps clock length
+	// WaveUnk: the byte's contents are not determined (a wave RAM write landed while channel 3 was
+	// playing; where it goes is outside the statements) until it is rewritten with channel 3 off
+	WaveUnk [16]bool
+	Ch      [4]APUChan
+	Step    int // index of the next frame-sequencer step (0..7); even steps clock length
 }
 
 // NewAPU is the state the machine starts in: powered on, every register and every channel
@@ -67,11 +70,14 @@ func (a *APU) freq1() int { return int(a.Reg[0x03]) | int(a.Reg[0x04]&7)<<8 }
 // Write applies a guest write to FF10-FF3F.
 func (a *APU) Write(addr uint16, v uint8) {
 	if addr >= 0xff30 && addr <= 0xff3f {
-		if a.Ch[2].On {
-			a.Ch[2].Unspec = true // wave RAM access while channel 3 plays is outside the statements
+		if a.Ch[2].On || a.Ch[2].Unspec {
+			// wave RAM access while channel 3 plays is outside the statements: the write may land on any byte
+			for i := range a.WaveUnk {
+				a.WaveUnk[i] = true
+			}
 			return
 		}
-		a.Wave[addr-0xff30] = v
+		a.Wave[addr-0xff30], a.WaveUnk[addr-0xff30] = v, false
 		return
 	}
 	if addr == 0xff26 {
@@ -211,7 +217,7 @@ func (a *APU) Read(addr uint16) (val, mask uint8) {
 		}
 		return v, m
 	case addr >= 0xff30 && addr <= 0xff3f:
-		if a.Ch[2].On || a.Ch[2].Unspec {
+		if a.Ch[2].On || a.Ch[2].Unspec || a.WaveUnk[addr-0xff30] {
 			return 0, 0
 		}
 		return a.Wave[addr-0xff30], 0xff
